@@ -39,3 +39,9 @@ Definition run_case_ps (B npre npost : nat) (syn : list (list (nat * nat))) (dt 
   ser_list ser_step
     (cell_run_ps FN (reduce FN (redk rk)) (mkCfg FN B npre npost syn dt (hd (TDaStdp FN 0 0 1 1) trs)) trs
                  (mkCS FN None None) steps).
+
+(* hyperparameters re-assigned on the cell state between steps: reduction and per-element trainer values per step *)
+Definition tv (rk : Z) (trs : list (trainer FN)) (s : stepin FN) : tvstep FN := (reduce FN (redk rk), trs, s).
+Definition run_case_tv (B npre npost : nat) (syn : list (list (nat * nat))) (dt : fl) (steps : list (tvstep FN)) : tree :=
+  ser_list ser_step
+    (cell_run_tv FN (mkCfg FN B npre npost syn dt (TDaStdp FN 0 0 1 1)) (mkCS FN None None) steps).
